@@ -157,7 +157,7 @@ func init() {
 		ID:    "C07",
 		Level: "exploration",
 		Rule: "every ordered pair of a 47-value boundary grid (int64 min/min+1/±2^53±1/±2/±1/0/max-1/max, uint64 0/1/2/2^53/2^63-1/2^63/max-1/max, float ±0/±subnormal/±1/2^53±/±2^63/±max/±Inf/NaN/fractions, chars 0/'a'/'b'/max rune) exhaustively, plus pairs of random 64-bit patterns (quick 4000, thorough 300000), each under < <= > >= == != + - * / mod; operands are injected as globals with exact bit patterns and, where a literal spelling exists, also written as literals. " +
-			"Oracle: math/big order for same-type pairs, float64 conversion for int/char vs float, NaN unordered from either side, trichotomy and (< a b)==(> b a) on the interpreter's own answers, Go wrap-around for int/uint + - *, exact-or-float division, float64 for mixed arithmetic, error for integer division/mod by zero. non-trivial = distinct pair involving at least one value within 2 of a 64-bit or 2^53 limit, NaN, Inf, or a signed zero",
+			"Oracle: math/big order for same-type pairs, float64 conversion for int/char vs float, NaN unordered from either side, trichotomy and (< a b)==(> b a) on the interpreter's own answers, Go wrap-around for int/uint + - *, exact-or-float division, float64 for mixed arithmetic, error for integer division/mod by zero; calls with three operands (a third int or float operand) must equal the nested binary calls (left fold). non-trivial = distinct pair involving at least one value within 2 of a 64-bit or 2^53 limit, NaN, Inf, or a signed zero",
 		Assumptions: []string{
 			"uint64 is compared only with uint64 (no other pairing is named by the statement); char vs int is judged by exact integer order (a char is its code point), which trichotomy and the (< a b)==(> b a) clause require for all operands",
 			"float division by zero may yield the IEEE value or an error; MinInt64 / -1 may be Go's wrapped result or an error; char arithmetic results are not judged",
@@ -168,7 +168,7 @@ func init() {
 			return n*n + thorN(c, 4000, 300000)
 		},
 		Exhaustive: func(c *core.Ctx) bool { return false },
-		MustSee:    []string{"comparisons", "arithmetic", "nan_pairs", "limit_pairs", "div_by_zero", "literal_forms"},
+		MustSee:    []string{"comparisons", "arithmetic", "nan_pairs", "limit_pairs", "div_by_zero", "literal_forms", "folds"},
 		Chunk:      400,
 		Run:        c07Run,
 	})
@@ -410,6 +410,20 @@ func c07Run(c *core.Ctx, i int) *core.Result {
 				res.Violate("escaped-panic:"+o.Site, o.Panic, text)
 			} else if !ok {
 				res.Violate(fmt.Sprintf("%sarith:%s:%s", lit, op, typeKey), fmt.Sprintf("(%s %v %v) must be %v, got %s", op, a, b, wants, g), text+" with "+res.Input)
+			}
+		}
+		// more than two operands fold from the left: (op a b c) is (op (op a b) c), whatever the
+		// types of the later operands (the binary steps themselves are judged above)
+		for _, op := range []string{"+", "-", "*", "/"} {
+			for _, third := range []string{"0.0", "1", "1.5", "-2"} {
+				g3, o3 := eval("(" + op + " " + x + " " + y + " " + third + ")\n")
+				g2, _ := eval("(" + op + " (" + op + " " + x + " " + y + ") " + third + ")\n")
+				res.Ev("folds", 1)
+				if g3 == "PANIC" {
+					res.Violate("escaped-panic:"+o3.Site, o3.Panic, res.Input)
+				} else if g3 != g2 && g2 != "PANIC" {
+					res.Violate(fmt.Sprintf("%sfold:%s:%s", lit, op, typeKey), fmt.Sprintf("(%s %v %v %s) gives %s but (%s (%s %v %v) %s) gives %s", op, a, b, third, g3, op, op, a, b, third, g2), res.Input)
+				}
 			}
 		}
 		if intint {
